@@ -113,7 +113,7 @@ pub fn check_seed<S: PS>(acc: &mut Acc, xi: &[u8; 32], class: &str, tail_seed: u
 
 fn run_set<S: PS>(ctx: &Ctx) -> Acc {
     let p = S::p();
-    let n_random = ctx.budget(160, 60_000) as usize;
+    let n_random = ctx.budget(160, 30_000) as usize;
     let mut seeds: Vec<([u8; 32], &'static str)> = vec![([0u8; 32], "fixed"), ([0xFFu8; 32], "fixed")];
     let single_bits = if ctx.thorough() { 256 } else { 8 };
     for b in 0..single_bits {
@@ -129,7 +129,7 @@ fn run_set<S: PS>(ctx: &Ctx) -> Acc {
     // rare-event pre-scan with the instrumented reference: seeds whose key generation wraps
     // A*s1 + s2 past q or below 0 before reduction, or whose ExpandA stream contains a three-byte
     // sample equal to q-1 / q / q+1
-    let n_scan = ctx.budget(24_000, 1_200_000) as usize;
+    let n_scan = ctx.budget(24_000, 300_000) as usize;
     let rare = rare_keygen_seeds(ctx, p, n_scan);
     let mut tag_names: Vec<&'static str> = Vec::new();
     for r in &rare {
